@@ -312,14 +312,45 @@ pub fn scenario(rng: &mut Rng, id: usize) -> Option<Start> {
                 }
             };
             let (lo, hi) = if kf < sf { (kf + 1, sf - 1) } else { (sf + 1, kf - 1) };
-            // two adjacent files strictly between
-            let a = rng.range(lo as usize, (hi - 1) as usize) as i8;
+            // two adjacent files strictly between - or (variant) elsewhere on the rank, with two unrelated men between
+            let outside = rng.chance(1, 5);
+            let a = if outside {
+                let mn = kf.min(sf);
+                let mx = kf.max(sf);
+                let mut cands: Vec<i8> = vec![];
+                for x in 0..7i8 {
+                    if (x + 1 < mn) || (x > mx) {
+                        cands.push(x);
+                    }
+                }
+                if cands.is_empty() {
+                    return None;
+                }
+                *rng.pick(&cands)
+            } else {
+                rng.range(lo as usize, (hi - 1) as usize) as i8
+            };
             let (wf, bf) = if rng.chance(1, 2) { (a, a + 1) } else { (a + 1, a) };
+            if outside {
+                let mut inside: Vec<i8> = (lo..=hi).collect();
+                rng.shuffle(&mut inside);
+                for x in inside.iter().take(2) {
+                    p.sq[sqm(*x, 4) as usize] = pc(*rng.pick(&[N, B]), rng.below(2) as u8);
+                }
+            }
             p.sq[sqm(kf, 4) as usize] = pc(K, WHITE);
             p.sq[sqm(sf, 4) as usize] = pc(*rng.pick(&[R, Q]), BLACK);
             p.sq[sqm(wf, 4) as usize] = pc(P, WHITE);
             p.sq[sqm(bf, 6) as usize] = pc(P, BLACK);
             let mut reserved = 0xffu64 << 32 | bit(sqm(bf, 5)) | bit(sqm(bf, 6)) | bit(sqm(wf, 5));
+            // variant: a capturer on each side of the pushed pawn (three men between king and slider: both captures legal)
+            if rng.chance(1, 4) {
+                let of = bf + (bf - wf);
+                if of > lo - 1 && of < hi + 1 && of != kf && of != sf && of >= 0 && of < 8 && p.sq[sqm(of, 4) as usize] == 0 {
+                    p.sq[sqm(of, 4) as usize] = pc(P, WHITE);
+                    reserved |= bit(sqm(of, 5));
+                }
+            }
             // variant: a third man between (capture becomes legal)
             if rng.chance(1, 3) && hi - lo >= 2 {
                 let x = rng.range(lo as usize, hi as usize) as i8;
@@ -435,7 +466,9 @@ pub fn scenario(rng: &mut Rng, id: usize) -> Option<Start> {
             if bf < 0 || bf > 7 {
                 return None;
             }
-            let d = *rng.pick(&[(0i8, 1i8), (bf - wf, 1), (wf - bf, 1), (1, 0), (-1, 0)]);
+            let d0 = *rng.pick(&[(0i8, 1i8), (bf - wf, 1), (wf - bf, 1), (1, 0), (-1, 0)]);
+            // either orientation: the king may also stand beyond the landing square with the slider behind the pawn
+            let d = if rng.chance(1, 2) { d0 } else { (-d0.0, -d0.1) };
             // slider "ahead" of the pawn in direction d, king behind
             let s = mk(wf + d.0 * rng.range(1, 3) as i8, 4 + d.1 * rng.range(1, 3) as i8)?;
             let k = mk(wf - d.0 * rng.range(1, 3) as i8, 4 - d.1 * rng.range(1, 3) as i8)?;
